@@ -30,9 +30,16 @@ MANIFEST = {
                   "/ defaults; never a version, a sample list, a tfdt, an opaque box), C02_encode_twice_* (after one successful "
                   "Encode the structure is settled: Encode and EncodeSW write the same bytes again, Size() is their number, Info and "
                   "Size change nothing) and C02_history_* (the same as an invariant over arbitrary histories of Size | Info | Encode "
-                  "| EncodeSW, by induction over the operation list). EXPLORATION for all other registered box types (per-node "
+                  "| EncodeSW, by induction over the operation list; C02_history_wf*: well-formedness is kept by every "
+                  "operation), C02_c12_order (the boxes written in segment mode are, in number, order and length, those C12's "
+                  "encode_file lists for the structure reached), C02_c05_moof_size. SencBox (the box whose Encode/Info set a flag "
+                  "Size() depends on): C02_senc_flag_idem, C02_senc_built (EVERY history of AddSample from CreateSencBox, refused "
+                  "samples included, gives a built_ok box), C02_senc (a senc_ok box is left alone by Info/Encode/EncodeSW, both "
+                  "paths write the same Size() bytes with a correct size field), C02_senc_obox (it is a well-formed stateless "
+                  "opaque box of the aggregate theorems); *_refuted: the AddSample text before the repairs ecf1460 / 0b086ee, and "
+                  "a box whose flag is inconsistent. EXPLORATION for all other registered box types (per-node "
                   "oracle through the Box interface) and for what the aggregate model keeps opaque (moov, styp, sidx, emsg, prft, "
-                  "senc, ... are boxes with a Size() and bytes): histories on the real implementation, incl. after setter calls "
+                  "... are boxes with a Size() and bytes): histories on the real implementation, incl. after setter calls "
                   "and field updates with boundary values in every version- or width-dependent box, output re-decoded.",
     "level_note": "Trusted: as C01 (same model, same correspondence) for boxes; for aggregates the hand transcription of "
                   "fragment.go / moof.go / traf.go (OptimizeTfhdTrun via C05Model.optimize) / mdat.go / mediasegment.go / "
@@ -41,9 +48,10 @@ MANIFEST = {
                   "case): a box other than tfhd/tfdt/trun/mfhd/mdat/traf/moof is opaque and stateless (Size() taken before its "
                   "first Encode = bytes written = its size field); no mdat has lazily written data; a fragment is [boxes] moof "
                   "[boxes] mdat [boxes]; the pointer sharing between File.Children and the segments is a flag; equal write-order "
-                  "numbers are ordered as Go's insertion sort does (up to 12 truns). The senc UseSubSampleEncryption flag set by "
-                  "Encode/Info is not modelled (senc is opaque): explored only. C12's model of the segment-mode box order is not "
-                  "linked formally; the order is transcribed again and checked by the correspondence.",
+                  "numbers are ordered as Go's insertion sort does (up to 12 truns). SencBox is modelled on its own (coq/c02/C02AggSencModel.v, "
+                  "its own correspondence stream); inside a traf it is an opaque box, which C02_senc_obox justifies for senc_ok "
+                  "boxes; the state after a FAILED Encode of a fragment holding a not-senc_ok senc is not modelled. C12's "
+                  "abstraction is reached through abs_file (kind and Size() per box).",
 }
 
 
@@ -90,7 +98,10 @@ def run_agg_corr(ctx, exe2, amodel, seed, n):
                   "1/3 wild: hand-set trun/tfhd flags, preset offsets, missing moof/mdat/tfhd, second tfhd, unnumbered trun), "
                   "segments (0..2 sidx, 0..3 fragments), init segments and files (NewFile+AddChild+AddMediaSegment, FragEncMode "
                   "0/1/2), each optionally after setter calls / field updates with boundary values; every testdata file < 120 kB "
-                  "decoded (both decoders) in both modes x optimisation, its first segments and fragments",
+                  "decoded (both decoders) in both modes x optimisation, its first segments and fragments; senc: histories of "
+                  "AddSample (no / 8 / 16-byte / mixed IVs, sub-samples on none / all / some samples), 1/4 with fields poked "
+                  "afterwards (flag, SampleCount, truncated IVs / SubSamples, SetPerSampleIVSize), and the senc boxes of the "
+                  "decoded testdata",
     }
     ctx.cov["samples"] += [l[:300] for l in lines[3:5]]
     ctx.log("aggregate correspondence: %d histories (%d distinct), %d mismatches" % (len(lines), distinct, len(mism)))
@@ -180,6 +191,8 @@ def run(ctx):
         "model: coq/c02/C02AggModel.v (hand transcription of Fragment/MediaSegment/InitSegment/File Size, Info, Encode, EncodeSW, "
         "MoofBox.Encode, TrafBox, MdatBox, SetTrunDataOffsets; OptimizeTfhdTrun and the tfhd/tfdt/trun/mdat records and sizes "
         "from coq/c05/C05Model.v, C05FragModel.v, C05CodecModel.v); opaque boxes are (type, Size(), bytes, error) and stateless",
+        "model: coq/c02/C02AggSencModel.v (hand transcription of mp4/senc.go: AddSample, setSubSamplesUsedFlag, Size, calcSize, "
+        "Encode, EncodeSW, EncodeSWNoHdr, Info at level 1)",
         "ocaml/c02_driver.ml, harness/c02/corr.go + setters.go (serialisation of the structures, digests of the mutated fields)",
     ]
 
